@@ -4,6 +4,8 @@ package seqrun
 
 import (
 	"bytes"
+	"encoding/hex"
+	"encoding/json"
 	"context"
 	"errors"
 	"fmt"
@@ -36,6 +38,40 @@ type Step struct {
 	// NoLevel: Begin is called without a level argument (the documented default, ReadCommitted,
 	// which is also what Level says)
 	NoLevel bool `json:"no_level,omitempty"`
+}
+
+// keys that are not valid UTF-8 would be rewritten by encoding/json: they travel as hex
+type stepJSON Step
+
+func (s Step) MarshalJSON() ([]byte, error) {
+	if utf8.ValidString(s.Key) {
+		return json.Marshal(stepJSON(s))
+	}
+	w := struct {
+		stepJSON
+		KeyHex string `json:"key_hex"`
+	}{stepJSON(s), hex.EncodeToString([]byte(s.Key))}
+	w.Key = ""
+	return json.Marshal(w)
+}
+
+func (s *Step) UnmarshalJSON(b []byte) error {
+	var w struct {
+		stepJSON
+		KeyHex string `json:"key_hex"`
+	}
+	if err := json.Unmarshal(b, &w); err != nil {
+		return err
+	}
+	*s = Step(w.stepJSON)
+	if w.KeyHex != "" {
+		k, err := hex.DecodeString(w.KeyHex)
+		if err != nil {
+			return err
+		}
+		s.Key = string(k)
+	}
+	return nil
 }
 
 func (s Step) String() string {
